@@ -3,7 +3,7 @@ from vf.s1common import s1_jobs, sig_of, graph_features, front_end_jobs, exc_sig
 from vf.oracles.hier import build_scfg, orig_map, STAGES, flatten, regions, staged, route_stages
 
 
-def make(oracle, stages=(1, 2, 3), payloads=("basic",), kind="structure", nontrivial=None, quick_n5_max_edges=None, front_ends=True):
+def make(oracle, stages=(1, 2, 3), payloads=("basic",), kind="structure", nontrivial=None, quick_n5_max_edges=None, front_ends=True, n5_routes=True):
     """oracle(desc, orig_blocks, g, k, payload) -> list of error tuples."""
 
     def check(desc):
@@ -43,6 +43,12 @@ def make(oracle, stages=(1, 2, 3), payloads=("basic",), kind="structure", nontri
         fs = check(desc)
         if any(f["kind"] == "skip" for f in fs):
             ctx.feature("stage-raised")
+        if (desc.get("route") or "direct") != "direct":
+            ctx.nontrivial += 1  # counted on the direct route of the same graph; routes differ in history only
+            for f in fs:
+                if f["kind"] != "skip":
+                    ctx.fail(f["kind"], f["signature"], desc, f["detail"])
+            return
         g = build_scfg(desc)
         try:
             g.restructure()
@@ -58,7 +64,7 @@ def make(oracle, stages=(1, 2, 3), payloads=("basic",), kind="structure", nontri
                 ctx.fail(f["kind"], f["signature"], desc, f["detail"])
 
     def jobs(tier):
-        js = s1_jobs(tier, harness, quick_n5_max_edges=quick_n5_max_edges)
+        js = s1_jobs(tier, harness, quick_n5_max_edges=quick_n5_max_edges, n5_routes=n5_routes)
         if front_ends:
             js += front_end_jobs(tier, harness)
         return js
